@@ -923,7 +923,7 @@ impl Display for Token {
     fn fmt(&self, f: &mut Formatter) -> std::fmt::Result {
         match self {
             Token::Align { tag, value } => {
-                write!(f, "{}{}", format!("{}", tag).to_uppercase(), value)
+                write!(f, "{}{}", tag.map(|t| t.to_string().to_uppercase()), value)
             }
             Token::Assert {
                 tag,
@@ -937,7 +937,7 @@ impl Display for Token {
                 write!(
                     f,
                     "{}{}{}",
-                    format!("{}", tag).to_uppercase(),
+                    tag.map(|t| t.to_string().to_uppercase()),
                     value,
                     failure_message
                 )
@@ -952,7 +952,7 @@ impl Display for Token {
                 write!(
                     f,
                     "{}{}",
-                    format!("{}", size).to_uppercase(),
+                    size.map(|t| t.to_string().to_uppercase()),
                     format_arglist(values)
                 )
             }
@@ -961,7 +961,7 @@ impl Display for Token {
                     .as_ref()
                     .map(|c| format!("{}", c))
                     .unwrap_or_else(|| "".to_string());
-                write!(f, "{}{}{}", format!("{}", tag).to_uppercase(), id, value)
+                write!(f, "{}{}{}", tag.map(|t| t.to_string().to_uppercase()), id, value)
             }
             Token::Eof(triv) => {
                 write!(f, "{}", format_trivia(&triv.trivia))
@@ -981,13 +981,13 @@ impl Display for Token {
                 else_,
             } => {
                 let else_ = match (tag_else, else_) {
-                    (Some(tag), Some(e)) => format!("{}{}", format!("{}", tag).to_uppercase(), e),
+                    (Some(tag), Some(e)) => format!("{}{}", tag.map(|t| t.to_string().to_uppercase()), e),
                     _ => "".to_string(),
                 };
                 write!(
                     f,
                     "{}{}{}{}",
-                    format!("{}", tag_if).to_uppercase(),
+                    tag_if.map(|t| t.to_string().to_uppercase()),
                     value,
                     if_,
                     else_
@@ -1028,7 +1028,11 @@ impl Display for Token {
             Token::Instruction(i) => match &i.operand {
                 Some(o) => {
                     let suffix = match &o.suffix {
-                        Some(s) => format!("{}{}", s.comma, s.register.to_string().to_uppercase()),
+                        Some(s) => format!(
+                            "{}{}",
+                            s.comma,
+                            s.register.map(|r| r.to_string().to_uppercase())
+                        ),
                         None => "".to_string(),
                     };
 
@@ -1077,7 +1081,7 @@ impl Display for Token {
                 expr,
                 block,
             } => {
-                write!(f, "{}{}{}", format!("{}", tag).to_uppercase(), expr, block)
+                write!(f, "{}{}{}", tag.map(|t| t.to_string().to_uppercase()), expr, block)
             }
             Token::MacroDefinition {
                 tag,
@@ -1090,7 +1094,7 @@ impl Display for Token {
                 write!(
                     f,
                     "{}{}{}{}{}{}",
-                    format!("{}", tag).to_uppercase(),
+                    tag.map(|t| t.to_string().to_uppercase()),
                     id,
                     lparen,
                     format_arglist(args),
@@ -1115,7 +1119,7 @@ impl Display for Token {
                     Some(i) => format!("{}", i),
                     None => "".to_string(),
                 };
-                write!(f, "{}{}{}", format!("{}", tag).to_uppercase(), id, block)
+                write!(f, "{}{}{}", tag.map(|t| t.to_string().to_uppercase()), id, block)
             }
             Token::Test { tag, id, block } => {
                 write!(f, "{}{}{}", tag.map(|t| t.to_uppercase()), id, block)
@@ -1131,7 +1135,7 @@ impl Display for Token {
                     tag.map(|t| t.to_uppercase()),
                     encoding
                         .as_ref()
-                        .map(|t| format!("{}", t).to_uppercase())
+                        .map(|t| t.map(|e| e.to_string().to_uppercase()).to_string())
                         .unwrap_or_default(),
                     text,
                 )
@@ -1164,7 +1168,7 @@ impl Display for Token {
                 write!(
                     f,
                     "{}{}{}{}",
-                    format!("{}", ty).to_uppercase(),
+                    ty.map(|t| t.to_string().to_uppercase()),
                     id,
                     eq,
                     value
